@@ -198,9 +198,10 @@ def pxInternal (p : KParams) (h : Nat) (ec : Ec) (extra : String) (data : List U
     | none => some { s with bad := true }
     | some inst =>
       if inst.dead then
-        -- the handler is bound to a destroyed object: only `on_accept(operation_aborted)` returns
-        -- before touching a member
-        if cb == .accept && ec == Ec.aborted then some s
+        -- the handler is bound to a destroyed object: `operation_aborted` makes every socket
+        -- callback return before it touches a member; `on_domain_lookup` and the
+        -- `close_connection` bound to the error response have no such guard
+        if ec == Ec.aborted && cb != .lookup && cb != .errWritten then some s
         else some (({ s with bad := true }).emit "X model: http_proxy callback on a destroyed object")
       else
         let n := (findNat? (extra.splitOn " ") "n").getD 0
